@@ -175,7 +175,35 @@ def reflected_operators(index: RepoIndex, rep, rule: str) -> None:
                   f'{cname}.{r} accepts what __{o}__ accepts')
 
 
+def value_classes_final(index: RepoIndex, rep, rule: str) -> None:
+    """Position, Area, Shape and Transform compare by the equality their dataclass decorator
+    generates, which is class-strict (`other.__class__ is self.__class__`): an instance of a
+    subclass never equals what the algebra produces (`t * e == t` is False for a `Pose(..)`
+    although the hashes agree).  No class of the package subclasses them unless the base
+    defines its own `__eq__`."""
+    n = 0
+    for base in ('Position', 'Area', 'Shape', 'Transform'):
+        bc = index.find_class(base)
+        if bc is None:
+            raise AnalysisError(f'anchor vanished: geometry class {base}')
+        n += 1
+        subs = index.subclasses(base)
+        own_eq = '__eq__' in bc.methods
+        for sc in subs:
+            rep.check(own_eq or '__eq__' in sc.methods, rule, sc.module.relpath, sc.name,
+                      sc.node.lineno, f'class {sc.name}({base})',
+                      f'{sc.name} subclasses the value class {base}, whose generated equality '
+                      f'compares only objects of exactly the same class: a {sc.name} never '
+                      f'equals the {base} an operator returns, so identities and inverses of '
+                      f'the pose algebra fail for the objects the library hands out',
+                      f'{sc.name}: equality across the subclass')
+        rep.holds(rule, f'{base}: {len(subs)} subclass(es)', 'class-strict equality is safe')
+
+
 def run(index: RepoIndex, rep) -> None:
+    rep.rule('C18.R13', 'geometry value classes are not subclassed (their generated equality '
+             'is class-strict)', floor=4)
+    value_classes_final(index, rep, 'C18.R13')
     rep.rule('C18.R12', 'both spellings of a product work: reflected operators accept every '
              'operand type the forward operator accepts, and the forward operators answer '
              'NotImplemented for operands of other classes', floor=7)
